@@ -25,6 +25,7 @@ impl<T> Stream for ShellStream<T> {
         self: std::pin::Pin<&mut Self>,
         cx: &mut std::task::Context<'_>,
     ) -> Poll<Option<Self::Item>> {
+        verif_point!("ss.poll");
         let mut shared_state = self.shared_state.lock().unwrap();
 
         if let Some(send_request) = shared_state.send_request.take() {
@@ -66,6 +67,7 @@ where
                 return Err(());
             };
 
+            verif_point!("ss.resolve");
             let mut shared_state = shared_state.lock().unwrap();
 
             sender.send(result);
